@@ -1274,6 +1274,8 @@ def breaking_edits(rng, src):
     out.append((src.rstrip("\r\n") + "\nloop(zz,%s)\n%s\nend loop\n" % (rng.choice(["0", "0x0", "00", "0b0"]), bad_body), "malformed statement inside the body of a loop with bound 0"))
     out.append((src.rstrip("\r\n") + "\n" + " ".join(["1"] * hdr_n) + "\r" + " ".join(["1"] * hdr_n) + "\n", "two rows separated by a lone CR (a CR is a blank, not a line break)"))
     out.append((src.rstrip("\r\n") + "\nloop(zz,1)\r" + " ".join(["1"] * hdr_n) + "\nend loop\n", "loop header followed by a lone CR instead of a line break"))
+    out.append((src.rstrip("\r\n") + "\nlet fx = %s;\n" % rng.choice(["randomize(4)", "iteX(1,2,3)", "signExtend(4,3)", "ran(4)", "it(1,2,3)", "random2(4)", "Random(4)", "ite_(1,2,3)", "signExt2(1,2)"]),
+                "a function name that extends / shortens / re-cases a built-in"))
     # a bare `end` as the very last token, with and without the final line break
     out.append((src.rstrip("\r\n") + "\nend", "end at top level as the last token (no final newline)"))
     out.append((src.rstrip("\r\n") + "\nend\n", "end at top level as the last token"))
@@ -2639,6 +2641,9 @@ def c14_loop_shadow_cases(seed, tier):
         ("Q", ["loop(i,2)", "loop(j,2)", "let Q = 70 + j;", "(Q) X X", "end loop", "(i) X X", "end loop"]),
         ("Q", ["let w = 0;", "while(w < 2)", "let Q = 80 + w;", "(Q) X X", "let w = w + 1;", "end while", "(Q) X X"]),
         ("j", ["loop(i,2)", "loop(j,2)", "(i+j) X X", "end loop", "end loop"]),
+        ("Q", ["loop(Q,Q+1)", "(Q) X X", "end loop"]),
+        ("n", ["repeat(n) (n) X X"]),
+        ("n", ["loop(i,2)", "repeat(n-5) (n+i) X X", "end loop"]),
     ]:
         prog = prog + (["(1) X X", "(2) X X"] if not prog[-1].startswith("(") else ["(3) X X"])
         for decl in ("%s + 100" % oname, "%s" % oname, "ite(%s > 5, %s, 0 - %s)" % (oname, oname, oname)):
@@ -3102,3 +3107,127 @@ for _p in ("C01", "C18"):
 PROPS["C12"]["cases"] = (lambda base: (lambda seed, tier: base(seed, tier) + [dict(c, id="c12-" + c["id"]) for c in c16_dupname_cases(seed, tier)]))(PROPS["C12"]["cases"])
 PROPS["C12"]["oracles"] = PROPS["C12"]["oracles"] + [_f16.c16_load_oracle]
 PROPS["C12"]["rule"] += "; plus .dig documents with several tests of one name (some of them malformed): load_test(i) = from_str(source i), so a malformed test is rejected whichever test was loaded before"
+
+
+# ------------------------------------------------------------------ round 9
+def extreme_loop_cases(prefix):
+    """loop / repeat bounds at the ends of the range (i64::MIN, MIN+1, -1, 0, MAX) and counters re-bound by let to extreme
+    values (MAX: the step wraps to MIN and the loop goes on; hugely negative), rows capped by max items"""
+    sigs = [{"name": "A", "typ": "I", "bits": 64, "default": "0"}, {"name": "Q", "typ": "O", "bits": 8, "default": "-"}]
+    MINS = "(1<<63)"
+    progs = [
+        ["loop(i,%s)" % MINS, "(i) X", "end loop", "(7) X"],
+        ["repeat(~0x7FFFFFFFFFFFFFFF) (n) X", "(8) X"],
+        ["loop(i,%s+1)" % MINS, "(i) X", "end loop", "repeat(0-1) (n) X", "(9) X"],
+        ["let b = %s;" % MINS, "loop(i,b)", "loop(j,b+b)", "(j) X", "end loop", "end loop", "(b) X"],
+        ["loop(i,0x7FFFFFFFFFFFFFFF)", "(i) X", "end loop"],
+        ["loop(i,3)", "(i) X", "let i = ite(i = 0, 0x7FFFFFFFFFFFFFFF, i);", "end loop", "(5) X"],
+        ["loop(i,3)", "(i) X", "let i = ite(i = 0, 0-0x7FFFFFFFFFFFFFFF, i);", "end loop", "(5) X"],
+        ["loop(i,3)", "(i) X", "let i = ite(i = 1, %s, i);" % MINS, "end loop", "(5) X"],
+        ["loop(i,2)", "loop(j,2)", "let j = 0x7FFFFFFFFFFFFFFF;", "(i) X", "end loop", "end loop"],
+        ["loop(i,0x7FFFFFFFFFFFFFFF)", "let i = 0x7FFFFFFFFFFFFFFE;", "(i) X", "end loop", "(4) X"],
+        ["let w = 0x7FFFFFFFFFFFFFFF;", "while(w > 0)", "(w) X", "let w = w + 1;", "end while", "(w) X"],
+    ]
+    cases = []
+    for k, pr_ in enumerate(progs):
+        for kind in ("run", "static"):
+            cases.append({"id": "%s-extreme-%d-%s" % (prefix, k, kind), "kind": kind, "src": "\n".join(["A Q"] + pr_) + "\n", "sigs": [dict(s_) for s_ in sigs], "layout": [1] if kind == "run" else [],
+                          "table": [["1"]] if kind == "run" else [], "echo": 0, "wdefault": k % 2, "faults": [], "max": 12, "seed": 1 + k, "cont": 0})
+    return cases
+
+
+for _p in ("C01", "C10", "C18"):
+    _extend(_p, (lambda pref: (lambda seed, tier: extreme_loop_cases(pref)))(_p.lower()), "plus loop / repeat bounds at the ends of the range and counters re-bound to i64::MAX / hugely negative values")
+
+
+def c07_unrelated_out_pin_cases(seed, tier):
+    """a real output pin N_out next to an UNRELATED pin N (input or output) of another width: every signal is reduced to its own width"""
+    cases = []
+    k = 0
+    for (wn, wo) in [(4, 9), (9, 4), (1, 8), (8, 1), (3, 64), (64, 3)]:
+        for tn in ("I", "O"):
+            sigs = [{"name": "N", "typ": tn, "bits": wn, "default": "0" if tn == "I" else "-"}, {"name": "N_out", "typ": "O", "bits": wo, "default": "-"},
+                    {"name": "A", "typ": "I", "bits": 2, "default": "0"}]
+            rows = ["0xFFF 0xFFF 1", "(0-1) (0-1) 2", "0x155 0x2AA 3", "(1<<63) (1<<62) 0"]
+            cases.append({"id": "c07-unrelout-%d" % k, "kind": "run", "src": "N N_out A\n" + "\n".join(rows) + "\n", "sigs": sigs, "layout": [1] if tn == "I" else [0, 1], "table": [["5"] * (1 if tn == "I" else 2)],
+                          "echo": 0, "wdefault": k % 2, "faults": [], "max": 12, "seed": 1 + k, "cont": 0})
+            k += 1
+    return cases
+
+
+for _p in ("C07", "C03", "C06"):
+    _extend(_p, c07_unrelated_out_pin_cases, "plus a real output pin N_out next to an unrelated pin N of another width")
+
+
+def c09_constant_fault_texts(seed, tier):
+    """constant expressions that FAIL when evaluated (division / remainder by a zero that is visible at parse time, an empty
+    random range, signExt) in every place an expression can stand: they parse, and fail only when run"""
+    cases = []
+    k = 0
+    for e in ("1/0", "7 % 0", "8/(2-2)", "1/(0*5)", "(1<<63)/(0-1)", "random(0)", "random(1)", "signExt(4,3)", "ite(1,1/0,2)", "ite(0,1/0,2)", "0/0", "5%(3-3)"):
+        for shape in ("A Q\n(%s) X\n", "A Q\nlet a = %s;\n(a) X\n", "A Q\nbits(1,%s) X\n", "A Q\nloop(i,%s)\n1 X\nend loop\n", "A Q\nrepeat(%s) 1 X\n",
+                      "A Q\nwhile(%s)\n1 X\nend while\n", "A Q V\ndeclare V = %s;\n1 X X\n", "A Q\n1 (%s)\n"):
+            sigs = [{"name": "A", "typ": "I", "bits": 4, "default": "0"}, {"name": "Q", "typ": "O", "bits": 4, "default": "-"}]
+            cases.append({"id": "c09-constfault-%d" % k, "kind": "run", "src": shape % e, "sigs": sigs, "layout": [1], "table": [["1"]], "echo": 0, "wdefault": 0, "faults": [], "max": 6, "seed": 1 + k, "cont": 1})
+            k += 1
+    # rows that are too wide in front of a bits entry, and other width arithmetic at parse time
+    for t in ("A B\n1 0 1 bits(2,3)\n", "A B\n1 0 1 1 1 bits(64,3)\n", "A B\nbits(64,0) bits(64,0) bits(64,0) bits(64,0) 0 1\n", "A B\n0 1 " + "bits(64,0) " * 4 + "\n", "A\nbits(0,5)\n",
+              "A B\nrepeat(2) bits(64,1) bits(64,1) bits(64,1) bits(64,1) 1 1\n", "A B\nbits(255,1)\n", "A B\nbits(256,1)\n", "A B\nbits(18446744073709551615,1)\n"):
+        cases.append({"id": "c09-widtharith-%d" % k, "kind": "parse", "src": t})
+        k += 1
+    return cases
+
+
+for _p in ("C09", "C10", "C12"):
+    _extend(_p, c09_constant_fault_texts, "plus constant expressions that fail when evaluated, in every place an expression can stand (they parse; they fail when run), and rows whose width arithmetic is extreme")
+
+
+def c11_many_clashes_cases(seed, tier):
+    """binding that fails for SEVERAL reasons at once (2-6 declared names that are also device signals; unknown columns plus a
+    clash; duplicate signals plus unknown columns): the same error every time"""
+    cases = []
+    for k, nclash in enumerate((2, 3, 4, 6)):
+        names = ["V%d" % i for i in range(nclash)]
+        decl = ["declare %s = Q + %d;" % (n_, i) for i, n_ in enumerate(names)]
+        sigs = [{"name": "A", "typ": "I", "bits": 1, "default": "0"}, {"name": "Q", "typ": "O", "bits": 8, "default": "-"}] + [{"name": n_, "typ": "O" if i % 2 else "I", "bits": 4, "default": "-" if i % 2 else "0"} for i, n_ in enumerate(names)]
+        for variant in range(3):
+            hdr = "A Q" + ("".join(" " + n_ for n_ in names) if variant == 0 else " NOSUCH ALSONOT" if variant == 1 else "")
+            row = "1 X" + (" X" * nclash if variant == 0 else " 1 1" if variant == 1 else "")
+            sg = [dict(s_) for s_ in sigs] + ([dict(sigs[0])] if variant == 2 else [])
+            cases.append({"id": "c11-manyclash-%d-%d" % (k, variant), "kind": "run", "src": "\n".join([hdr] + decl + [row]) + "\n", "sigs": sg, "layout": [1], "table": [["3"]],
+                          "echo": 0, "wdefault": 0, "faults": [], "max": 6, "seed": 1 + k, "c11": "several reasons to refuse at once"})
+    return cases
+
+
+for _p in ("C11", "C15"):
+    _extend(_p, c11_many_clashes_cases, "plus bindings that must be refused for several reasons at once (the same error every time)")
+_extend("C08", (lambda seed, tier: [dict(c, id="c08-" + c["id"]) for c in c14_round8_cases(seed, tier) if "min" in c["id"]]), "plus 64-bit outputs at the ends of the range read in expressions")
+
+
+def c04_after_bad_answer(seed, tier):
+    """rows that read outputs AFTER an answer that was refused (same length, other signals / order) or after a driver error,
+    with a caller that continues: the values read are those of the last ACCEPTED answer"""
+    fam = add_faults(run_family("c04f", 120 if tier == "quick" else 4000, 0, [
+        {"reads": 0.9, "declare": 0.2, "maxdepth": 2, "wlet": 0.3, "wrow": 0.5, "full_layout": True, "pZX": 0.05, "echo": 0.0},
+        {"reads": 0.8, "declare": 0.0, "maxdepth": 1, "wrow": 0.6, "full_layout": True, "n_bidir": 1}]),
+        ["subst", "swap", "err", "swapsig", "drop", "add"], 1.0, cont=1.0)
+    return fam(seed, "quick")
+
+
+_extend("C04", c04_after_bad_answer, "plus reads after a refused answer or a driver error with a caller that continues (values of the last accepted answer)")
+
+
+def c20_empty_body_cases(seed, tier):
+    """programs without any statement, in every layout: header + line break, + blank lines, + comment lines, + blanks at the end"""
+    sigs = [{"name": "A", "typ": "I", "bits": 1, "default": "0"}, {"name": "B", "typ": "O", "bits": 1, "default": "-"}]
+    cases = []
+    for k, t in enumerate(["A B\n", "A B\n\n", "A B\n# todo\n", "A B\n   \n", "A B\n\t\n# x\n\n", "A B\r\n", "A B\r\n\r\n", "A B \n", "\n\nA B\n", "A B\n#", "A B\n# no newline",
+                           "A B\n \r\n", "A B\n\n\n\n   "]):
+        cases.append({"id": "c20-emptybody-%d" % k, "kind": "run", "src": t, "sigs": sigs, "layout": [1], "table": [["1"]], "echo": 0, "wdefault": 0, "faults": [], "max": 4, "seed": 1 + k})
+    for k, t in enumerate(["A B", "A B   ", "A B\t", ""]):
+        cases.append({"id": "c20-noheaderbreak-%d" % k, "kind": "parse", "src": t})
+    return cases
+
+
+for _p in ("C20", "C19", "C12"):
+    _extend(_p, c20_empty_body_cases, "plus programs without any statement in every layout (and headers without a line break: rejected)")
